@@ -22,7 +22,7 @@ import (
 	"github.com/refraction-networking/uquic/internal/verifmc/sim"
 )
 
-var c17Causes = []string{"local-close", "remote-close", "idle-timeout", "transport-close", "stateless-reset", "handshake-timeout", "dial-cancel", "keepalive-then-blackhole"}
+var c17Causes = []string{"local-close", "remote-close", "idle-timeout", "transport-close", "stateless-reset", "handshake-timeout", "dial-cancel", "keepalive-then-blackhole", "idle-timeout-sending"}
 
 // blocked client calls
 var c17Calls = []string{"Read", "Write", "AcceptStream", "AcceptUniStream", "OpenStreamSync", "ReceiveDatagram"}
@@ -319,9 +319,17 @@ func c17Run(t *testing.T, cfg c17Config) c17Result {
 		rmu.Unlock()
 
 		// ---- the cause
+		lastRecv := time.Duration(-1)
+		noteLastRecv := func() { // the last datagram delivered to the client so far (the log restarts with each phase)
+			for _, e := range w.Router.Log() {
+				if e.Dir == sim.S2C && e.Fate != sim.Drop {
+					lastRecv = max(lastRecv, e.T+sim.OneWay)
+				}
+			}
+		}
+		noteLastRecv()
 		w.Router.StartPhase(cfg.Faults)
 		tCause := since()
-		lastRecv := time.Duration(-1)
 		var wantRemote string // what the server must see
 		switch cause {
 		case "local-close":
@@ -331,7 +339,7 @@ func c17Run(t *testing.T, cfg c17Config) c17Result {
 			sconn.CloseWithError(9, "server says bye")
 		case "transport-close":
 			d.Close()
-		case "idle-timeout", "keepalive-then-blackhole":
+		case "idle-timeout", "keepalive-then-blackhole", "idle-timeout-sending":
 			if cause == "keepalive-then-blackhole" {
 				// an answered keep-alive must keep the connection alive for many idle periods
 				time.Sleep(5 * tm.Idle)
@@ -341,17 +349,27 @@ func c17Run(t *testing.T, cfg c17Config) c17Result {
 				if tm.KA == 0 && conn.Context().Err() == nil {
 					fail("no-idle-timeout", "no keep-alive configured, 5 idle periods of silence, and the connection is still open")
 				}
+				noteLastRecv()
 				w.Router.StartPhase(cfg.Faults)
 			}
-			// find the last datagram delivered to the client, then kill the path
-			for _, e := range w.Router.Log() {
-				if e.Dir == sim.S2C && e.Fate != sim.Drop {
-					lastRecv = e.T + sim.OneWay
-				}
-			}
+			noteLastRecv()
 			tCause = since()
 			w.Router.SetBlackhole(sim.C2S, true)
 			w.Router.SetBlackhole(sim.S2C, true)
+			if cause == "idle-timeout-sending" {
+				// the application keeps producing ack-eliciting packets towards the dead peer: only
+				// the first one after the last packet received may restart the idle period
+				wg.Add(1)
+				go func() {
+					defer wg.Done()
+					for i := 0; i < 16; i++ {
+						time.Sleep(tm.Idle / 4)
+						if _, err := held[0].Write([]byte{byte(i)}); err != nil {
+							return
+						}
+					}
+				}()
+			}
 		case "stateless-reset":
 			// the server loses all connection state and comes back on the same address with the same reset key
 			w.Router.RemoveNode(w.ServerAddr)
@@ -419,7 +437,7 @@ func c17Run(t *testing.T, cfg c17Config) c17Result {
 			} else if !errors.As(recorded, &ae) || !ae.Remote || ae.ErrorCode != 9 {
 				fail("wrong-cause", "recorded cause %v, want remote application error 9", recorded)
 			}
-		case "idle-timeout", "keepalive-then-blackhole":
+		case "idle-timeout", "keepalive-then-blackhole", "idle-timeout-sending":
 			var ite *quic.IdleTimeoutError
 			if !errors.As(recorded, &ite) {
 				fail("wrong-cause", "recorded cause %v, want an idle timeout", recorded)
@@ -429,6 +447,21 @@ func c17Run(t *testing.T, cfg c17Config) c17Result {
 			}
 			if tEnd > tCause+tm.Idle+max(tm.Idle, 3*time.Second)+time.Second {
 				fail("idle-timeout-late", "idle timeout fired %v after the path died (negotiated idle timeout %v)", tEnd-tCause, tm.Idle)
+			}
+			// the period in force at the client: the smaller of the two advertised values, where the
+			// implementation deliberately reads a peer value below protocol.MinRemoteIdleTimeout (5 s) as 5 s
+			eff := tm.Idle
+			if cfg.Kind == "chrome115" {
+				eff = min(30*time.Second, max(tm.Idle, 5*time.Second)) // Chrome advertises 30 s
+			}
+			if cause == "idle-timeout-sending" && tm.KA == 0 && tEnd > tCause+tm.Idle/4+eff+eff/4 {
+				var sent []string
+				for _, e := range w.Router.Log() {
+					if e.Dir == sim.C2S && e.T >= tCause {
+						sent = append(sent, fmt.Sprintf("%v/%dB", e.T, len(e.Data)))
+					}
+				}
+				fail("idle-timeout-postponed-by-sending", "the peer went silent at %v, the application kept writing 1 byte every %v: the idle timeout (period in force %v) fired only at %v, more than a quarter period after (first packet sent after the last one received) + idle timeout = %v; last packet received at %v; datagrams sent into the dead path: %v", tCause, tm.Idle/4, eff, tEnd, tCause+tm.Idle/4+eff, lastRecv, sent)
 			}
 		case "transport-close":
 			if recorded == nil || !errors.Is(recorded, quic.ErrTransportClosed) {
@@ -564,6 +597,14 @@ func TestVerifC17(t *testing.T) {
 						cfgs = append(cfgs, c17Config{Cause: ci, When: w, Kind: k, Seed: seed})
 					}
 				}
+			case "idle-timeout-sending":
+				for ti := range c17Timings {
+					for _, k := range []string{"plain", "chrome115"} {
+						for _, set := range [][]int{{}, {0, 2}} {
+							cfgs = append(cfgs, c17Config{Cause: ci, Calls: set, When: 1, Timing: ti, Kind: k, Seed: seed})
+						}
+					}
+				}
 			case "keepalive-then-blackhole":
 				for ti := range c17Timings {
 					cfgs = append(cfgs, c17Config{Cause: ci, Calls: []int{0, 2}, When: 1, Timing: ti, Kind: "plain", Seed: seed})
@@ -589,7 +630,7 @@ func TestVerifC17(t *testing.T) {
 				}
 			}
 		}
-		return cfgs, fmt.Sprintf("close causes {local close, remote close, idle timeout, Transport.Close, stateless reset} x every set of <= %d concurrently blocked client calls out of %v x 3 positions (right after the handshake, 300 ms later, during a server-to-client transfer) + timing configurations + spec-driven client + 1 fault on the closing exchange; handshake timeout (silent peer) and dial cancellation at each of the first 8 datagrams; keep-alive answered for 5 idle periods then path death", maxSet, c17Calls)
+		return cfgs, fmt.Sprintf("close causes {local close, remote close, idle timeout, Transport.Close, stateless reset} x every set of <= %d concurrently blocked client calls out of %v x 3 positions (right after the handshake, 300 ms later, during a server-to-client transfer) + timing configurations + spec-driven client + 1 fault on the closing exchange; handshake timeout (silent peer) and dial cancellation at each of the first 8 datagrams; keep-alive answered for 5 idle periods then path death; path death while the application keeps writing every quarter idle period (3 timing configurations x plain/spec-driven x 2 call sets)", maxSet, c17Calls)
 	}
 	part := explore.Part{Name: "close-fanout"}
 	part.Run = func(e explore.Env) *explore.Report {
